@@ -25,13 +25,16 @@ def _opts(G, same, join, ohead, otail, include, N):
     return kw
 
 
-def ob_group(n, ncols, kindset, incname, same, join, ohead, otail, budget_s=120):
+def ob_group(n, ncols, kindset, incname, same, join, ohead, otail, shard=None, budget_s=120):
     """list(group_notes(stream, **options)) == reference grouping (or both raise OrphanedNoteException)"""
     symx, mods = _setup()
     G = mods["simfile.notes.group"]; N = mods["simfile.notes"]
     kinds = {3: nc.KINDS3, 5: nc.KINDS5, 6: nc.KINDS6, 7: nc.KINDS7}[kindset]
 
     def run():
+        if shard is not None:      # this obligation covers the streams whose first note has kind number `shard`
+            import z3
+            symx.CTL.assume(z3.Int("kind0") == shard)
         if incname == "subsets":   # every subset of the kinds of this obligation, by solver-guided case split
             idx = symx.choose("inc", 2 ** len(kinds))
             include = tuple(k for i, k in enumerate(kinds) if (idx >> i) & 1)
@@ -122,9 +125,11 @@ def obligations(tier):
     n, b = (3, 200) if tier == "quick" else (4, 3000)
     ncols = 2
     def add_group(n_, kindset, inc, same, join, oh, ot):
-        obs.append(dict(name=f"group n={n_} kinds={kindset} include={inc} {same} join={join} head={oh} tail={ot}", func="ob_group",
-                        args=(n_, ncols, kindset, inc, same, join, oh, ot), budget_s=b,
-                        bounds=f"{n_} notes, {ncols} columns, {kindset} note kinds by case split, beats symbolic reals with all tie patterns, keysound symbolic/None"))
+        shards = range(kindset) if n_ >= 5 else (None,)     # five-note streams are split by the first note's kind
+        for sh in shards:
+            obs.append(dict(name=f"group n={n_} kinds={kindset} include={inc} {same} join={join} head={oh} tail={ot}" + (f" first-kind={sh}" if sh is not None else ""), func="ob_group",
+                            args=(n_, ncols, kindset, inc, same, join, oh, ot, sh), budget_s=b,
+                            bounds=f"{n_} notes, {ncols} columns, {kindset} note kinds by case split, beats symbolic reals with all tie patterns, keysound symbolic/None"))
     for same in nc.SAME:
         add_group(n, 5, "all", same, False, "RAISE_EXCEPTION", "RAISE_EXCEPTION")
         for oh in nc.POL:
@@ -182,7 +187,7 @@ def replay(data):
     from simfile.notes import group as G, count as C
     a = data["args"]; m = data["model"]
     if data["func"] == "ob_group":
-        n, ncols, kindset, incname, same, join, oh, ot = a
+        n, ncols, kindset, incname, same, join, oh, ot = a[:8]
         kinds = {3: nc.KINDS3, 5: nc.KINDS5, 6: nc.KINDS6, 7: nc.KINDS7}[kindset]
         include = tuple(k for i, k in enumerate(kinds) if (int(m.get("inc", 0)) >> i) & 1) if incname == "subsets" else nc.INCLUDE_SETS[incname]
         notes = nc.model_notes(m, n, ncols, kinds)
